@@ -93,6 +93,48 @@ class Obligation:
                 "detail": self.detail}
 
 
+def _complementary(f, g):
+    """Is the linear fact g the negation of f over the naturals (or stronger than it)?"""
+    (k1, p1), (k2, p2) = f, g
+    one = Poly.const(1)
+    if k1 == "eq":
+        return (k2 == "ne" and (p2 == p1 or p2 == Poly.const(0) - p1)) or \
+               (k2 == "ge" and (p2 == p1 - one or p2 == Poly.const(0) - p1 - one))
+    if k1 == "ne" or (k1 == "ge" and k2 == "eq"):
+        return _complementary(g, f) if k2 == "eq" else False
+    if k1 == "ge" and k2 == "ge":
+        return p2 == Poly.const(0) - p1 - one
+    return False
+
+
+def _same_under(st, x, y):
+    """x and y denote the same value on every concrete state of st."""
+    if x is y:
+        return True
+    if isinstance(x, VSeq) and isinstance(y, VSeq):
+        return terms_equal(st, x.t, y.t)
+    if isinstance(x, VNat) and isinstance(y, VNat):
+        return st.eq(x.p, y.p)
+    if isinstance(x, VRec) and isinstance(y, VRec):
+        return x.ty == y.ty and set(x.f) == set(y.f) and all(_same_under(st, x.f[k], y.f[k]) for k in x.f)
+    if isinstance(x, VTup) and isinstance(y, VTup):
+        return len(x.items) == len(y.items) and all(_same_under(st, p, q) for p, q in zip(x.items, y.items))
+    if isinstance(x, VEnum) and isinstance(y, VEnum):
+        return x.variant == y.variant and len(x.payload) == len(y.payload) and \
+            all(_same_under(st, p, q) for p, q in zip(x.payload, y.payload))
+    if isinstance(x, VUser) and isinstance(y, VUser):
+        return x.key == y.key
+    if isinstance(x, VBool) and isinstance(y, VBool):
+        return x.f == y.f
+    if isinstance(x, VUnit) and isinstance(y, VUnit):
+        return True
+    if isinstance(x, VMutRef) and isinstance(y, VMutRef):
+        return x.place == y.place
+    if isinstance(x, VRange) and isinstance(y, VRange):
+        return _same_under(st, x.lo, y.lo) and _same_under(st, x.hi, y.hi) and getattr(x, "incl", False) == getattr(y, "incl", False)
+    return False
+
+
 class Interp:
     def __init__(self, facts, config=None):
         self.facts = facts
@@ -104,6 +146,7 @@ class Interp:
         # tree it decides 45 sites and cannot decide 76 (loop-carried values); a "not provably equal" verdict on precise
         # terms is not a proof of difference, so arming it would trade misses for false alarms.  Kept, not armed.
         self.gsc_enabled = bool(__import__("os").environ.get("OHSA_GSC"))
+        self.merge_shortcuts = not __import__("os").environ.get("OHSA_NOJOIN")
         self.assumptions = {}
         self.lemma_uses = {}
         self.entry = None
@@ -1485,6 +1528,8 @@ class Interp:
             return ov
         self.stats["calls_inlined"] += 1
         nf = Frame(fn, fr, e)
+        n_facts0 = len(st.lin.facts)
+        keys0 = list(st.env.keys())
         s = st
         states = [s]
         for p, v in zip(fn["params"], vals):
@@ -1502,7 +1547,73 @@ class Interp:
                     raise Unsupported("control flow escaping function: " + str(c))
         import internal_specs
         internal_specs.check(self, fn, vals, out, nf, e)
+        if fr.fn is not None and len(out) > 1 and self.merge_shortcuts:
+            out = self.join_shortcuts(out, n_facts0, keys0)
         return out
+
+    # ------------------------------------------------------------------ joining shortcut paths at call returns
+    def join_shortcuts(self, outs, n0, keys0):
+        """A callee that answers a special case early (an empty operand, a zero offset) and the general case by its
+        general code returns twice.  When the early answer EQUALS the general answer under the early path's own
+        condition (term equality on every array, linear equality on every number, same post-state of the caller's
+        places), the two outcomes are joined: the state keeps the facts both paths share, the value is the general
+        one.  Sound (the joined state over-approximates both paths and the value is valid on both); it keeps the
+        number of paths of the callers from doubling at every such call."""
+        outs = list(outs)
+        changed = True
+        while changed and len(outs) > 1:
+            changed = False
+            for i in range(len(outs)):
+                for j in range(len(outs)):
+                    if i == j:
+                        continue
+                    m = self._join_pair(outs[i], outs[j], n0, keys0)
+                    if m is not None:
+                        outs = [o for k, o in enumerate(outs) if k not in (i, j)] + [m]
+                        self.stats["joined_shortcuts"] = self.stats.get("joined_shortcuts", 0) + 1
+                        changed = True
+                        break
+                if changed:
+                    break
+        return outs
+
+    def _join_pair(self, a, b, n0, keys0):
+        (si, vi, ci), (sj, vj, cj) = a, b
+        if ci is not None or cj is not None:
+            return None
+        # failures and verdicts are never joined: the facts of their paths are what REJ / boolean specs decide on
+        for v_ in (vi, vj):
+            if isinstance(v_, VBool) or (isinstance(v_, VEnum) and v_.variant in ("None", "Err")):
+                return None
+        if si.teq != sj.teq or si.tne != sj.tne or si.unk != sj.unk or si.props != sj.props:
+            return None
+        fi, fj = si.lin.facts[n0:], sj.lin.facts[n0:]
+        if si.lin.facts[:n0] != sj.lin.facts[:n0]:
+            return None
+        common = set(fi) & set(fj)
+        di = [f for f in fi if f not in common]
+        dj = [f for f in fj if f not in common]
+        if len(di) != 1 or not dj or not any(_complementary(di[0], g) for g in dj):
+            return None
+        if not _same_under(si, vi, vj):
+            return None
+        for k in keys0:
+            x, y = si.env.get(k), sj.env.get(k)
+            if x is y:
+                continue
+            if x is None or y is None or not _same_under(si, x, y):
+                return None
+        s = sj.copy()
+        from poly import Lin
+        s.lin = Lin(sj.lin.facts[:n0] + [f for f in fj if f in common])
+        s.pos, s.neg = set(), {}
+        s.bnd = {t: tuple(b for b in bs if b in si.bnd.get(t, ())) for t, bs in sj.bnd.items()}
+        s.bnd = {t: bs for t, bs in s.bnd.items() if bs}
+        n = 0
+        while n < len(si.path) and n < len(sj.path) and si.path[n] == sj.path[n]:
+            n += 1
+        s.path = sj.path[:n]
+        return (s, vj, None)
 
     def apply_value(self, f, args, st, fr, e):
         """Call a closure / function value / user callback with argument values."""
